@@ -120,7 +120,12 @@ def run_typelevel(ctx):
             if _memory_kind(kind):
                 exp = CR.expected_of(r)
                 if exp not in (G.INVALID, G.NOTHING):
-                    ctx.violation("typelevel:%s:%s:crash:%s" % (r.g.op.name, G.cfg_class(r.inst.cfg), kind), "[%s] %s(%s) configuration %s died: %s" % (
+                    # a defect family the type-level checks already know by its CAUSE (vf/c09_run.py family_of) keeps one key here too,
+                    # whatever the container kind and the sanitizer symptom (e.g. view::matmul with a 1-d operand: std::out_of_range with
+                    # bounds-checked containers, heap-buffer-overflow with the library's own)
+                    fam = CR.family_of(r.g.op.name, r.inst.cfg, CR.vals_brief(r), "crash")
+                    key = ("typelevel:%s:memory" % fam) if fam else ("typelevel:%s:%s:crash:%s" % (r.g.op.name, G.cfg_class(r.inst.cfg), kind))
+                    ctx.violation(key, "[%s] %s(%s) configuration %s died: %s" % (
                         r.flavor, r.g.op.name, CR.vals_brief(r), r.inst.cfg, kind), dict(line=r.line, stderr=r.crash.stderr[-2500:]))
             continue
         if r.toks is None:
